@@ -705,33 +705,3 @@ Proof.
   lia.
 Qed.
 
-Lemma restore_flag : opt_restores_rcode_on_err = true.
-Proof. reflexivity. Qed.
-
-Lemma set_hdr_eta s : set_hdr s (b_hdr s) = s.
-Proof. destruct s; reflexivity. Qed.
-
-(* a failed push leaves the whole builder state as it was (for the OPT push:
-   because AdditionalBuilder::opt puts the header RCODE back, restore_flag) *)
-Lemma step_err_unchanged c s o s' e :
-  BW c s -> step c s o = (s', RErr e) -> s' = s.
-Proof.
-  intros HB H. unfold step in H. destruct o as [q|r|oh opts| | | |l|h]; cbn [step_gen] in H.
-  - destruct (b_sec s =? 0); [|discriminate].
-    destruct (mb_push_cases c s (compose_question c q) HB (compose_question_spec c q)) as [(w' & _ & E & _)|[(e' & E)|(x & E & D)]];
-      rewrite E in H; try discriminate; injection H as <- _; reflexivity || (rewrite <- H in D; discriminate).
-  - destruct (b_sec s =? 0); [discriminate|].
-    destruct (mb_push_cases c s (compose_record c r) HB (compose_record_spec c r)) as [(w' & _ & E & _)|[(e' & E)|(x & E & D)]];
-      rewrite E in H; try discriminate; injection H as <- _; reflexivity || (rewrite <- H in D; discriminate).
-  - destruct (b_sec s =? 3); [|discriminate]. rewrite restore_flag in H.
-    destruct (mb_push_cases c s (compose_opt c oh opts) HB (compose_opt_spec c oh opts)) as [(w' & _ & E & _)|[(e' & E)|(x & E & D)]];
-      rewrite E in H; cbn [fst snd] in H.
-    + injection H as _ X. discriminate.
-    + injection H as <- _. apply set_hdr_eta.
-    + injection H as _ X. rewrite X in D. discriminate.
-  - destruct (b_sec s <? 3); discriminate.
-  - destruct (b_sec s =? 0); [discriminate|]. destruct (rewind c s); discriminate.
-  - destruct (rewind c s); discriminate.
-  - discriminate.
-  - discriminate.
-Qed.
